@@ -236,10 +236,18 @@ theorem stepReset_good (p : Policy) (s : St) (o : Outcome) (l : Label) (c : Scan
         omega
   · exact hijack_good p _ _ c h1 h2 h3 h4 h5
 
+/-- once the downstream response has started the regenerated guard of `onUpstreamReset` refuses every retry -/
+theorem resetGuard_started (reason : String) (rs : Bool) : resetGuard reason true rs = false := by
+  simp [resetGuard]
+
 theorem step_good (p : Policy) (s : St) (l : Label) (h : Good p s) : Good p (step p s l) := by
   unfold step
   split
-  · exact h
+  · split
+    · rename_i hc
+      rw [hc.1, resetGuard_started] at hc
+      simp at hc
+    · exact h
   · split
     · exact h
     · rename_i hlive _
